@@ -39,23 +39,28 @@ Definition digest_ok (d : digest) (flags : N) : bool :=
   | SHA256 => N.land flags CaFormatSHA512256 =? 0
   end.
 
-(* for i, r := range table.Items { Start = lastOffset; Size = r.Offset - lastOffset;
-     lastOffset = r.Offset; if Size > ChunkSizeMax { return error } } *)
-Fixpoint chunks_of_items (mx last : N) (items : list titem) : result (list chunk) :=
+(* for i, r := range table.Items {
+     if r.Offset < lastOffset { return error }            (since "fix: index reader rejects decreasing ...")
+     Start = lastOffset; Size = r.Offset - lastOffset; lastOffset = r.Offset;
+     if Size > ChunkSizeMax { return error } } *)
+Fixpoint chunks_of_items_v (v : version) (mx last : N) (items : list titem) : result (list chunk) :=
   match items with
   | [] => Ok []
   | (off, id) :: r =>
-      let size := sub64 off last in
-      if mx <? size then Err ChunkTooLarge
-      else match chunks_of_items mx off r with
-           | Ok cs => Ok ((id, last, size) :: cs)
-           | Err e => Err e
-           | Panic p => Panic p
-           end
+      if (match v with Fixed => off <? last | PreFix => false end) then Err DecreasingOffset
+      else
+        let size := sub64 off last in
+        if mx <? size then Err ChunkTooLarge
+        else match chunks_of_items_v v mx off r with
+             | Ok cs => Ok ((id, last, size) :: cs)
+             | Err e => Err e
+             | Panic p => Panic p
+             end
   end.
+Notation chunks_of_items := (chunks_of_items_v Fixed).
 
 (* IndexFromReader (the bufio layer does not change what is read) *)
-Definition index_from_reader (d : digest) : M index :=
+Definition index_from_reader_v (v : version) (d : digest) : M index :=
   do e <- next Fixed;
   match e with
   | Some (Index _ ff mn av mx) =>
@@ -66,7 +71,7 @@ Definition index_from_reader (d : digest) : M index :=
         | Some (Table _ items) =>
             (* c.Chunks = make([]IndexChunk, len(table.Items)): 48 bytes each *)
             do _ <- charge (48 * N.of_nat (length items));
-            match chunks_of_items mx 0 items with
+            match chunks_of_items_v v mx 0 items with
             | Ok cs => ret (mkIndex ff mn av mx cs)
             | Err e => fail e
             | Panic p => throw p
@@ -75,6 +80,7 @@ Definition index_from_reader (d : digest) : M index :=
         end
   | _ => fail NotIndex
   end.
+Notation index_from_reader := (index_from_reader_v Fixed).
 
 Definition decode_index (d : digest) (b : bytes) : result index :=
   match index_from_reader d b with
@@ -86,6 +92,9 @@ Definition decode_index (d : digest) (b : bytes) : result index :=
 Definition decode_index_rest (d : digest) (b : bytes) : result (index * bytes) :=
   run_result (index_from_reader d) b.
 Definition decode_index_alloc (d : digest) (b : bytes) : N := run_alloc (index_from_reader d) b.
+(* the reader as it was before the decreasing-offset check *)
+Definition decode_index_prefix (d : digest) (b : bytes) : result (index * bytes) :=
+  run_result (index_from_reader_v PreFix d) b.
 
 (* var offset uint64; for p, c := range i.Chunks { offset += c.Size; fChunks[p] = {c.ID, offset} } *)
 Fixpoint table_items (offset : N) (cs : list chunk) : list titem :=
@@ -140,6 +149,9 @@ Definition canonical (b : bytes) : Prop :=
   word_at b 0 = 48 /\
   word_at b (length b - 24) = 48 /\
   word_at b (length b - 16) = N.of_nat (length b - 48).
+
+(* the two reasons IndexFromReader refuses a table *)
+Definition table_error (e : err) : Prop := e = ChunkTooLarge \/ e = DecreasingOffset.
 
 (* offset before row j of a table: 0 for the first row *)
 Definition prev_offset (j : nat) (items : list titem) : N :=
